@@ -118,8 +118,24 @@ uint8_t get_reg(struct instr *instrc, struct operand *m, int r) {
       m->reg = NO_BASE;
       instrc->no_base = true;
     }
-    if (m->reg == NO_BASE)
+    if (m->reg == NO_BASE) {
+      // without a base the displacement is always 32 bits wide: undo the
+      // reduction of a small negative displacement to 8 bits
+      if (instrc->mod_disp == MOD8 && (instrc->mem_offset & NEG8BIT_CHECK))
+        instrc->mem_offset |= ~(uint32_t)MAX_UNSIGNED_8BIT;
       instrc->mod_disp = 0;
+    } else {
+      // the index became the base: redo what encode_mem() derives from the
+      // base register (rbp/r13 need a zero displacement byte, rsp/r12 a SIB)
+      unsigned int base_mode = m->reg & MODE_MASK;
+      if (base_mode > ext16 && base_mode < mmx64 && !instrc->mem_offset &&
+          (m->reg & VALUE_MASK) == bpl) {
+        instrc->mod_disp = MOD8;
+        instrc->zero_byte = true;
+      }
+      if ((m->reg & VALUE_MASK) == spl && m->index == reg_none)
+        instrc->is_sib_const = true;
+    }
   }
   // check for index register
   if (m->index == reg_none) {
